@@ -371,6 +371,38 @@ Proof.
   symmetry. apply marks_in_range_spec. exact G.
 Qed.
 
+(* ---------- parse-error / no-parse-error verification ---------- *)
+Definition enc_flag (b : bool) : str := [if b then 1 else 0].
+
+Lemma enc_flag_eqb want p : str_eqb (enc_flag want) (enc_flag p) = Bool.eqb p want.
+Proof. destruct want, p; reflexivity. Qed.
+
+Lemma verify_flags_from_as_choice want perrs : forall i marks,
+  verify_flags_from want i marks perrs = verify_choice_from i marks (map enc_flag perrs) (enc_flag want).
+Proof.
+  induction perrs as [|p t IH]; intros i marks; cbn [verify_flags_from verify_choice_from map]; [reflexivity|].
+  rewrite enc_flag_eqb, IH. reflexivity.
+Qed.
+
+Lemma verify_parse_flags_as_choice want marks perrs :
+  verify_parse_flags want marks perrs = verify_choice marks (map enc_flag perrs) (enc_flag want).
+Proof.
+  unfold verify_parse_flags, verify_choice. rewrite map_length, verify_flags_from_as_choice. reflexivity.
+Qed.
+
+(* accepted exactly when the marked files are PRECISELY the files whose
+   parse-error flag is the wanted one *)
+Lemma verify_parse_flags_iff want marks perrs :
+  verify_parse_flags want marks perrs = Ok tt <->
+  (forall j, In j marks <-> nth_error perrs j = Some want).
+Proof.
+  rewrite verify_parse_flags_as_choice, verify_choice_iff. unfold marks_exact.
+  assert (E : forall j, nth_error (map enc_flag perrs) j = Some (enc_flag want) <-> nth_error perrs j = Some want).
+  { intro j. rewrite nth_error_map. destruct (nth_error perrs j) as [p|]; cbn; [|split; discriminate].
+    split; intro H; [|congruence]. destruct p, want; try reflexivity; discriminate. }
+  split; intros H j; specialize (H j); rewrite H; [apply E|symmetry; apply E].
+Qed.
+
 (* ---------- text answers: strings.TrimSpace ---------- *)
 Definition all_space (s : str) : Prop := Forall (fun c => is_space c = true) s.
 Definition no_lead (s : str) : Prop := match s with c :: _ => is_space c = false | [] => True end.
